@@ -614,3 +614,19 @@ library's Reals axioms and classic).""",
         ("C01_invariants_of_histories", "step_good3", "store_good, value_consistent and the closure side conditions are preserved by every instruction"),
         ("C01_all_supported", "all_supported", "every reachable state satisfies them"),
     ])
+
+TABLE["C16nested"] = dict(
+    title="(all nesting depths of arr!) nested construction",
+    imports="""From Coq Require Import List Arith Bool.
+From Corgi Require Import Lib.OptionMonad Model.Scalar Model.Arr Proofs.ArrFacts Proofs.NestedSpec.
+Import ListNotations.""",
+    intro="""[nest] is a rose tree of values (what nested [arr!] invocations denote); [build] constructs the array level by
+level with the model of [Array::from(Vec<Array>)] / [Array::from(Vec<Float>)]; [regular d t]: t is a well-formed
+nesting of shape d (no empty level, no empty row, equal shapes at every level); [flat t]: the row-major values;
+[path t idx]: the leaf element reached by following the multi-index.""",
+    items=[
+        ("C16_nested_any_depth", "build_spec", "nesting of ANY depth builds exactly the nested dimensions with row-major values, iff the nesting is regular"),
+        ("C16_nested_refuses", "build_none", "ragged nesting, empty levels and empty rows are refused at every depth"),
+        ("C16_nested_index", "build_index", "indexing the built array with a full multi-index returns the leaf element reached by following it"),
+        ("C16_nested_wf", "build_wf", "the built array is well formed"),
+    ])
